@@ -104,7 +104,7 @@ def verify_function(prop, contract, callees, lib, timeout_hint=None, hooks=None)
     multi = len(contract.cases) > 1
     for ci, case in enumerate(contract.cases):
         ctx = Ctx(prop, lib, callees)
-        cname = case.get("_name", str(ci)) if multi else None
+        cname = case.get("_name", str(ci) if multi else None)
         ctx.fnshort = contract.short + (f"[{cname}]" if cname else "")
         ex = Executor(ctx, fs, contract)
         if fs.is_pyx:
@@ -113,6 +113,7 @@ def verify_function(prop, contract, callees, lib, timeout_hint=None, hooks=None)
         ctx.inline = set((hooks or {}).get("inline", ()))
         from . import symexec as _sx
         _sx.CFG_MODE[0] = bool(getattr(contract, "cfg_mode", False))
+        _sx.SUM_CONGRUENCE[0] = bool(getattr(contract, "sum_congruence", False))
         ctx.calls_may_raise = bool(getattr(contract, "calls_may_raise", False))
         try:
             module_env(fs, ex)
